@@ -181,6 +181,58 @@ pub fn run(args: &Args) {
             o.div(format!("setup-panicked:{}", panic_site(&e)), format!("{}; formulas {:?}", e, placed.iter().map(|p| render(&p.ast)).collect::<Vec<_>>()));
             return o;
         }
+        // a quarter of the workbooks are edited after a save / load cycle, as a user's file would be; half of those carry a
+        // shared-formula block (master + translated children), which only exists in loaded files
+        if rng.chance(1, 4) {
+            o.feat("loaded-from-file");
+            let mut block: Vec<(usize, u32, u32)> = vec![];
+            // (external references are not translated by our reference translation, so they stay out of the block)
+            let with_shared = rng.chance(1, 2) && !allow.contains("external-ref");
+            let (bsi, bc, br) = (rng.below(sheets.len() as u64) as usize, W + 10, rng.range(1, H - 6));
+            let (bw, bh) = (rng.range(1, 3), rng.range(2, 5));
+            if with_shared {
+                let depth = rng.range(1, 3);
+                let master = gen(&mut rng, depth, &cfg);
+                for dr in 0..bh {
+                    for dc in 0..bw {
+                        let ast = translate_ast(&master, dc as i64, dr as i64);
+                        let r = guard(|| book.get_sheet_mut(&bsi).unwrap().get_cell_mut((bc + dc, br + dr)).set_formula(render(&ast)).get_formula().to_string());
+                        if r.is_err() {
+                            o.inconclusive = Some("cannot place the shared block".into());
+                            return o;
+                        }
+                        placed.push(Placed { sheet: bsi, col: bc + dc, row: br + dr, ast, alive: true });
+                        block.push((bsi, bc + dc, br + dr));
+                    }
+                }
+            }
+            let reloaded = crate::dump::save(&book, false).and_then(|bytes| {
+                if block.is_empty() {
+                    return crate::dump::load(&bytes);
+                }
+                crate::dump::load(&to_shared_block(&bytes, bsi, bc, br, bw, bh)?)
+            });
+            match reloaded {
+                Ok(b) => {
+                    book = b;
+                    if !block.is_empty() {
+                        o.feat("shared-formula-block");
+                        // the loaded block must show the formulas it was built from (C03's subject; a wrong start would poison the rest)
+                        for pl in placed.iter().filter(|p| block.contains(&(p.sheet, p.col, p.row))) {
+                            let got = book.get_sheet(&pl.sheet).and_then(|ws| ws.get_cell((pl.col, pl.row))).map(|c| c.get_formula().to_string()).unwrap_or_default();
+                            if norm(&got) != norm(&render(&pl.ast)) {
+                                o.inconclusive = Some(format!("shared block does not load as built: {:?} vs {:?}", got, render(&pl.ast)));
+                                return o;
+                            }
+                        }
+                    }
+                }
+                Err(e) => {
+                    o.inconclusive = Some(format!("save / load cycle before the edits failed: {}", e));
+                    return o;
+                }
+            }
+        }
         // identity check right after set_formula (C09's subject, but a wrong start would poison the rest)
         let nedits = rng.range(1, 6);
         let mut feats_edit: BTreeSet<&'static str> = BTreeSet::new();
@@ -328,7 +380,11 @@ pub fn run(args: &Args) {
                 o.observations += 1;
                 o.count("defined-name-observations", 1);
                 let exp = render(&nm.ast);
-                let got = guard(|| book.get_sheet(&nm.sheet).unwrap().get_defined_names().iter().find(|d| d.get_name() == nm.name).map(|d| d.get_address()));
+                // whichever collection holds it: names are re-homed between the workbook and the sheets when a file is loaded
+                let got = guard(|| {
+                    let _ = nm.sheet;
+                    book.get_defined_names().iter().chain(book.get_sheet_collection_no_check().iter().flat_map(|ws| ws.get_defined_names().iter())).find(|d| d.get_name() == nm.name).map(|d| d.get_address())
+                });
                 let got = match got {
                     Ok(Some(g)) => g,
                     Ok(None) => "<name missing>".to_string(),
@@ -344,6 +400,27 @@ pub fn run(args: &Args) {
             }
         }
         let _ = &names;
+        // what the edits produced must also be what a save persists: the same observation on the saved and reloaded workbook
+        if o.divs.is_empty() && !hist.is_empty() && (o.features.contains("loaded-from-file") || rng.chance(1, 4)) {
+            o.count("save-reload-observations", 1);
+            match crate::dump::save(&book, false).and_then(|b| crate::dump::load(&b)) {
+                Ok(re) => {
+                    for pl in placed.iter().filter(|p| p.alive) {
+                        o.observations += 1;
+                        let exp = render(&pl.ast);
+                        let alt = render(&strip_referr_prefix(&pl.ast));
+                        let got = guard(|| re.get_sheet(&pl.sheet).unwrap().get_cell((pl.col, pl.row)).map(|x| x.get_formula().to_string())).ok().flatten().unwrap_or_else(|| "<formula cell missing>".into());
+                        if norm(&got) != norm(&exp) && norm(&got) != norm(&alt) {
+                            let mut f = BTreeSet::new();
+                            features(&pl.ast, &mut f);
+                            o.div("formula-text-after-save-and-reload", format!("formula on {} at ({},{}): the edited workbook shows {:?}, the saved file reloads as {:?}; features {:?}; history {:?}", sheets[pl.sheet], pl.col, pl.row, exp, got, f, hist));
+                            break;
+                        }
+                    }
+                }
+                Err(e) => o.div(format!("save-after-edits-failed:{}", panic_site(&e)), format!("{}; history {:?}", e, hist)),
+            }
+        }
         o.count("charts", charts.len() as u64);
         for f in feats_edit {
             o.feat(f);
@@ -363,6 +440,32 @@ pub fn run(args: &Args) {
         o
     });
     finish(args, agg, vec![]);
+}
+
+/// Rewrites the formulas of the block (bc, br) .. (bc+bw-1, br+bh-1) on sheet `si` of a saved workbook as one shared
+/// formula the way Excel stores it: text on the first cell, `<f t="shared" si=".."/>` on the others.
+pub fn to_shared_block(bytes: &[u8], si: usize, bc: u32, br: u32, bw: u32, bh: u32) -> Result<Vec<u8>, String> {
+    let mut parts = crate::zipx::all_parts(bytes)?;
+    let pname = format!("xl/worksheets/sheet{}.xml", si + 1);
+    let mut xml = String::from_utf8(parts.get(&pname).cloned().ok_or("sheet part missing")?).map_err(|e| e.to_string())?;
+    let a1 = |c: u32, r: u32| umya_spreadsheet::helper::coordinate::coordinate_from_index(&c, &r);
+    let reference = format!("{}:{}", a1(bc, br), a1(bc + bw - 1, br + bh - 1));
+    let mut first = true;
+    for r in br..br + bh {
+        for c in bc..bc + bw {
+            let tag = format!("<c r=\"{}\"", a1(c, r));
+            let at = xml.find(&tag).ok_or(format!("cell {} not in the sheet part", a1(c, r)))?;
+            let end_c = at + xml[at..].find("</c>").ok_or("unterminated cell")?;
+            let f0 = at + xml[at..end_c].find("<f>").ok_or("cell without <f>")?;
+            let f1 = f0 + xml[f0..end_c].find("</f>").ok_or("unterminated <f>")? + 4;
+            let text = xml[f0 + 3..f1 - 4].to_string();
+            let repl = if first { format!("<f t=\"shared\" ref=\"{}\" si=\"7\">{}</f>", reference, text) } else { "<f t=\"shared\" si=\"7\"/>".to_string() };
+            first = false;
+            xml.replace_range(f0..f1, &repl);
+        }
+    }
+    parts.insert(pname, xml.into_bytes());
+    crate::zipx::build(&parts)
 }
 
 pub fn strip_referr_prefix(a: &Ast) -> Ast {
